@@ -9,6 +9,7 @@ CONSTANTS
   ServeFromIndexNotOrder = FALSE
   TrustScanOrder = FALSE
   SwapBeforeApply = FALSE
+  BatchOnSharedCopy = FALSE
 INVARIANT TraceInv
 INVARIANT ObservedLogState
 INVARIANT ObservedReplicaStates
